@@ -212,7 +212,7 @@ def _expected_decoding(v):
 def body_E1(ctx):
     sh = ctx.shard
     which = ctx.choose(len(CORNERS) + len(RICH) + 1, "value class")
-    depth = [0, 1, 3, sh.get("deep", 50)][ctx.choose(4, "nesting")]
+    depth = [0, 1, 3, sh.get("deep", 50), 300][ctx.choose(5, "nesting")]
     as_dict = ctx.flag("nest in dicts")
     custom = False
     if which < len(CORNERS):
@@ -275,8 +275,13 @@ def body_E1(ctx):
         to_file(b, json_default=my_default)
         to_file(t, json_default=my_default)
         db, dt = Logger._destinations._destinations[-2:]
-    db(message)
-    dt(message)
+    try:
+        db(message)
+        dt(message)
+    except TypeError as e:
+        if depth >= 254 and "Recursion limit" in str(e):
+            ctx.fail("a message nested %d levels deep is not written at all: %s" % (depth, e), sig="C10:nesting-beyond-orjson-limit")
+        raise
     raw = b.getvalue()
     if ctx.shard.get("reoffer", 1):
         # offer the very same dict object again after changing it in place
@@ -340,6 +345,6 @@ OBLIGATIONS = [
         shards={"quick": [{"deep": 50}], "thorough": [{"deep": 50}, {"deep": 200}]},
         twin=[{"deep": 50, "twin_label": "rich-nested"}],
         timeout={"quick": 100, "thorough": 300},
-        bounds={"quick": "22 JSON-native corner classes + 8 rich values (path, date, time, 4 sets, complex) + custom json_default, nesting depth {0,1,3,50} in lists or dicts, binary and text files, made by FileDestination(json_default=) / FileDestination(encoder=) / to_file() / over a codecs.getwriter text stream - witnesses per class, not a for-all claim"},
+        bounds={"quick": "22 JSON-native corner classes + 8 rich values (path, date, time, 4 sets, complex) + custom json_default, nesting depth {0,1,3,50,300} in lists or dicts, binary and text files, made by FileDestination(json_default=) / FileDestination(encoder=) / to_file() / over a codecs.getwriter text stream - witnesses per class, not a for-all claim"},
     ),
 ]
